@@ -510,7 +510,8 @@ func init() {
 func (e *Engine) floatBits(st *State, x *smt.Term, w int, rt types.Type) Val {
 	c := e.C
 	// bits(x) is the unique bit pattern b with to_fp(b) == x for non-NaN x; for NaN some NaN pattern.
-	b := c.Fresh("fbits", smt.BV(w))
+	// a function of x (math.FloatNNbits is deterministic); its defining property is asserted at every use
+	b := c.App(fmt.Sprintf("float%dbits", w), smt.BV(w), x)
 	op := "(_ to_fp 11 53)"
 	s := smt.F64
 	if w == 32 {
